@@ -43,6 +43,10 @@ func (a aut) String() string {
 		fs = append(fs, strconv.Itoa(f))
 	}
 	for _, t := range a.adds {
+		if len(t) == 1 { // a probe: queries interleaved with the construction
+			ts = append(ts, fmt.Sprintf("Q%d", t[0]))
+			continue
+		}
 		var tg []string
 		for _, x := range t[2:] {
 			tg = append(tg, strconv.Itoa(x))
@@ -67,6 +71,11 @@ func parseAut(s string) aut {
 	}
 	if p[2] != "" {
 		for _, t := range strings.Split(p[2], ",") {
+			if strings.HasPrefix(t, "Q") {
+				m, _ := strconv.Atoi(t[1:])
+				a.adds = append(a.adds, []int{m})
+				continue
+			}
 			q := strings.Split(t, ":")
 			if len(q) != 3 {
 				continue
@@ -94,9 +103,82 @@ func states(xs []int) []automata.State {
 	return r
 }
 
+// probe words for the interleaved Accept queries
+var probeWords = []automata.String{{}, {'a'}, {'b'}, {'a', 'b'}, {'b', 'a', 'a'}}
+
+// probeNFA queries / converts the automaton in the middle of its construction (results are
+// discarded: a query must never change a later answer; the model is pure, so it ignores probes).
+func probeNFA(n *automata.NFA, mask int) {
+	if mask&1 != 0 {
+		_ = n.Symbols()
+	}
+	if mask&2 != 0 {
+		_ = n.States()
+	}
+	if mask&4 != 0 {
+		_ = n.String()
+	}
+	if mask&8 != 0 {
+		for _, w := range probeWords {
+			_ = n.Accept(w)
+		}
+	}
+	if mask&16 != 0 {
+		_ = n.ToDFA()
+	}
+	if mask&32 != 0 {
+		_ = n.Star()
+		_ = n.Union(n)
+	}
+	if mask&64 != 0 {
+		_ = n.Isomorphic(n.Clone())
+	}
+	if mask&128 != 0 {
+		_ = n.Equal(n.Clone())
+		for range n.Transitions() {
+		}
+	}
+}
+
+func probeDFA(d *automata.DFA, mask int) {
+	if mask&1 != 0 {
+		_ = d.Symbols()
+	}
+	if mask&2 != 0 {
+		_ = d.States()
+	}
+	if mask&4 != 0 {
+		_ = d.String()
+	}
+	if mask&8 != 0 {
+		for _, w := range probeWords {
+			_ = d.Accept(w)
+		}
+	}
+	if mask&16 != 0 {
+		_ = d.ToNFA()
+	}
+	if mask&32 != 0 {
+		_ = d.Minimize()
+		_ = d.EliminateDeadStates()
+		_ = d.ReindexStates()
+	}
+	if mask&64 != 0 {
+		_ = d.Isomorphic(d.Clone())
+	}
+	if mask&128 != 0 {
+		_ = d.Equal(d.Clone())
+		_, _ = automata.CombineDFA(d, d)
+	}
+}
+
 func (a aut) nfa() *automata.NFA {
 	n := automata.NewNFA(automata.State(a.start), states(a.fin))
 	for _, t := range a.adds {
+		if len(t) == 1 {
+			probeNFA(n, t[0])
+			continue
+		}
 		n.Add(automata.State(t[0]), automata.Symbol(t[1]), states(t[2:]))
 	}
 	return n
@@ -105,6 +187,10 @@ func (a aut) nfa() *automata.NFA {
 func (a aut) dfa() *automata.DFA {
 	d := automata.NewDFA(automata.State(a.start), states(a.fin))
 	for _, t := range a.adds {
+		if len(t) == 1 {
+			probeDFA(d, t[0])
+			continue
+		}
 		if len(t) >= 3 {
 			d.Add(automata.State(t[0]), automata.Symbol(t[1]), automata.State(t[2]))
 		}
@@ -260,6 +346,10 @@ func renamed(a aut, sts []automata.State, img []int) aut {
 		b.fin = append(b.fin, f(x))
 	}
 	for _, t := range a.adds {
+		if len(t) == 1 {
+			b.adds = append(b.adds, t)
+			continue
+		}
 		row := []int{f(t[0]), t[1]}
 		for _, x := range t[2:] {
 			row = append(row, f(x))
@@ -466,6 +556,9 @@ func stateIDs(a aut, isN bool) []int {
 		m[f] = true
 	}
 	for _, t := range a.adds {
+		if len(t) == 1 {
+			continue
+		}
 		m[t[0]] = true // Add(s, a, nil) still creates the (empty) entry of s
 		for _, x := range t[2:] {
 			m[x] = true
@@ -728,6 +821,74 @@ func randDFA(r *rng.R, maxN int) aut {
 	return a
 }
 
+// withProbes inserts 1..3 probe rows (queries / conversions, mask 1..255) at random positions of
+// the Add sequence, so that the automaton is inspected before its construction is finished.
+func withProbes(r *rng.R, a aut) aut {
+	b := aut{start: a.start, fin: a.fin}
+	k := r.Range(1, 3)
+	pos := map[int]int{}
+	for i := 0; i < k; i++ {
+		pos[r.Intn(len(a.adds)+1)] = r.Range(1, 255)
+	}
+	for i, t := range a.adds {
+		if m, ok := pos[i]; ok {
+			b.adds = append(b.adds, []int{m})
+		}
+		b.adds = append(b.adds, t)
+	}
+	if m, ok := pos[len(a.adds)]; ok {
+		b.adds = append(b.adds, []int{m})
+	}
+	return b
+}
+
+// staged builds an automaton in two stages separated by a probe: the first stage only uses symbol
+// 'a' (and ε for NFAs) on a few states, the second adds transitions on the new symbol 'b' and on
+// new states.  A stale cache filled by the probe (alphabet, state set, closure ...) shows up in
+// the op battery that follows.
+func staged(r *rng.R, isN bool) aut {
+	n1 := r.Range(1, 3)
+	n2 := r.Range(0, 2)
+	ids := randIDs(r, n1+n2)
+	a := aut{start: ids[r.Intn(n1)]}
+	for _, s := range ids {
+		if r.Chance(1, 3) {
+			a.fin = append(a.fin, s)
+		}
+	}
+	if len(a.fin) == 0 {
+		a.fin = append(a.fin, ids[r.Intn(len(ids))])
+	}
+	add := func(lo, hi int, symsOK []int) {
+		cnt := r.Range(1, 4)
+		for i := 0; i < cnt; i++ {
+			s := ids[r.Intn(hi)]
+			c := symsOK[r.Intn(len(symsOK))]
+			if isN {
+				row := []int{s, c}
+				for j := r.Range(1, 2); j > 0; j-- {
+					row = append(row, ids[lo+r.Intn(hi-lo)])
+				}
+				a.adds = append(a.adds, row)
+			} else if c != 0 {
+				a.adds = append(a.adds, []int{s, c, ids[lo+r.Intn(hi-lo)]})
+			}
+		}
+	}
+	if isN {
+		add(0, n1, []int{'a', 'a', 0})
+	} else {
+		add(0, n1, []int{'a'})
+	}
+	a.adds = append(a.adds, []int{r.Range(1, 255)})
+	add(0, n1+n2, []int{'b', 'b', 'a'})
+	if r.Chance(1, 3) {
+		a.adds = append(a.adds, []int{r.Range(1, 255)})
+		add(0, n1+n2, []int{'a', 'b'})
+	}
+	return a
+}
+
 func random(w *W, r *rng.R, cases int) {
 	for c := 0; c < cases; c++ {
 		if c%2 == 0 {
@@ -735,7 +896,11 @@ func random(w *W, r *rng.R, cases int) {
 			safe := r.Chance(3, 5)
 			var as []aut
 			for i := 0; i < k; i++ {
-				as = append(as, randNFA(r, 8, safe && r.Chance(9, 10)))
+				a := randNFA(r, 8, safe && r.Chance(9, 10))
+				if r.Chance(1, 3) {
+					a = withProbes(r, a)
+				}
+				as = append(as, a)
 			}
 			var ops []string
 			for i := range as {
@@ -760,7 +925,11 @@ func random(w *W, r *rng.R, cases int) {
 			k := r.Range(1, 3)
 			var as []aut
 			for i := 0; i < k; i++ {
-				as = append(as, randDFA(r, 8))
+				a := randDFA(r, 8)
+				if r.Chance(1, 3) {
+					a = withProbes(r, a)
+				}
+				as = append(as, a)
 			}
 			var ops []string
 			for i := range as {
@@ -975,6 +1144,23 @@ func shapes(w *W, r *rng.R, thorough bool) {
 		for i := 0; i < 200; i++ {
 			a := inflate(r, trimDFA(r, 6))
 			runCase(w, "D", "W6", []aut{a}, []string{"min 0", "acc 0"})
+		}
+		// construction interleaved with queries and conversions, new symbols / states afterwards
+		for i := 0; i < 150; i++ {
+			a := staged(r, true)
+			b := staged(r, true)
+			ops := []string{"acc 0", "todfa 0", "star 0", "clone 0", "union 0 1", "concat 0 1", "todfa 1"}
+			if len(stateIDs(a, true)) <= 6 {
+				ops = append(ops, renameOp(r, a, 0, true))
+			}
+			runCase(w, "N", "W6", []aut{a, b}, ops)
+			d := staged(r, false)
+			e := staged(r, false)
+			dops := []string{"acc 0", "tonfa 0", "min 0", "elim 0", "reindex 0", "clone 0", "combine 0 1", "combine 1 0"}
+			if len(stateIDs(d, false)) <= 6 {
+				dops = append(dops, renameOp(r, d, 0, false))
+			}
+			runCase(w, "D", "W6", []aut{d, e}, dops)
 		}
 		// NFAs with an accepting start state, transitions into the start state, sparse ids
 		for i := 0; i < 150; i++ {
